@@ -14,7 +14,8 @@ constructor accepts), every speed `ω` of either sign and every duty cycle `D`:
   motor's own torque, in closed form;
 * `standstill_full`, `noload_full`: at `D = 1`, `T(0) = T_max`, `i = i_max`; `T(ω₀) = 0`, `i = i₀`;
 * `torque_boundary`, `current_boundary`: explicit identities whose right-hand sides vanish as
-  `D → i₀/i_max` — continuity across the dead-zone boundary without limits;
+  `D → i₀/i_max` when `i₀ > 0` — continuity across the dead-zone boundary without limits (with
+  `i₀ = 0` there is no dead zone and the documented law itself jumps at `D = 0` unless `ω = 0`);
 * `torque_odd`, `current_odd`: reversing `D` and `ω` reverses torque and current exactly;
 * `current_total`: the current law never divides by zero for `|D| > i₀/i_max` in exact arithmetic;
   in floating point `D·i_max − i₀` can round to 0 one ulp outside the dead zone — the code then
